@@ -4,7 +4,7 @@ COMMON_NOTE = ("Trusted: Lean 4.33.0 kernel; axioms propext, Classical.choice, Q
 
 # suite: harness -suite name, Lean driver name (Main.lean argument, module CantoVerif.Driver.<Capitalised>), op counts, accept floor (%)
 SUITES = {
-    "coinswap": dict(quick_ops=4000, thorough_ops=40000, driver="coinswap", accept_floor=10),
+    "coinswap": dict(quick_ops=12000, thorough_ops=40000, driver="coinswap", accept_floor=10),
 }
 
 import os, re
